@@ -70,6 +70,39 @@ class Session:
         self.file = None
         self.ngroups = 0
 
+    @classmethod
+    def adopt(cls, joker, lib, data):
+        """a Session around a TheJoker object somebody else made (the repository's own tests): its generator is replaced by a
+        recording one over the SAME bit generator, a serial pool by the recording pool, and helpers are made by the recording
+        factory; worker-process pools are left alone (their calls are validated from the returned values only)"""
+        self = cls.__new__(cls)
+        self.lib, self.data, self.prior = lib, data, joker.prior
+        self.rec = collab.Recorder()
+        self.rec.decode = lib.decode
+        self.rec.ll_values = []
+        self.rec.inject = {}
+        self.seed = None
+        self._uscript = None
+        bitgen = joker.rng.bit_generator
+        g = collab.RecGen(bitgen)
+        g._rec, g._label = self.rec, "parent"
+        self.gen = g
+        joker.rng = g
+        pname = type(joker.pool).__name__
+        if pname in ("SerialPool", "RecPool"):
+            joker.pool = collab.RecPool(self.rec, size=1, order_seed=0)
+            self.observed = True
+        else:
+            self.observed = False
+        self.pool = joker.pool
+        self.joker = joker
+        self.workdir = None
+        collab.install_helper_factory(joker, self.rec)
+        self.events = []
+        self.file = None
+        self.ngroups = 0
+        return self
+
     # ---------------------------------------------------------------- header
     def reference_ll(self):
         """each row alone, on a fresh helper, in memory (plain helper: no recording, no injection)"""
@@ -87,7 +120,10 @@ class Session:
 
     def header(self):
         self.ref = self.reference_ll()
-        lnp = [int(x) for x in self.lib.lnprior] if self.lib.lnprior is not None else []
+        if getattr(self.lib, "lnprior_by_value", None) is not None:
+            lnp = list(range(1, self.lib.N + 1))           # adopted libraries: ln_prior values are identified by their row
+        else:
+            lnp = [int(x) for x in self.lib.lnprior] if self.lib.lnprior is not None else []
         self.events.append({"ev": "Header", "N": self.lib.N, "lnp": lnp, "th": [self.lib.row_hash(i) for i in range(1, self.lib.N + 1)],
                             "ref": tokens.ord_tokens(self.ref)})
 
@@ -123,12 +159,16 @@ class Session:
 
     # ---------------------------------------------------------------- one API call
     def call(self, api, path="object", nprior=0, maxpost=0, nlinear=1, randomize=False, logprobs=False, all=False,
-             nbatches=0, nreq=0, budget=0, initb=0, growth=None, group=0):
+             nbatches=0, nreq=0, budget=0, initb=0, growth=None, group=0, invoke=None):
+        """invoke: a callable that makes the real call (used when the call comes from somebody else's code: the options above then
+        only describe it); an exception it raises is recorded AND re-raised"""
         rec = self.rec
         rec.events = []
         rec.evaluated = []
         rec.ll_values = []
-        if path == "inmem":
+        if invoke is not None:
+            arg, inmem = None, path in ("inmem", "inmem_file")
+        elif path == "inmem":
             arg, inmem = self.lib.samples, True
         elif path == "object":
             arg, inmem = self.lib.samples, False
@@ -150,8 +190,13 @@ class Session:
         ret = {"ev": "Return", "raised": False, "exc": "", "type": "", "rows": [], "th": [], "haslp": False, "scalars": False,
                "lnlike": [], "lnprior": [], "hasall": False, "allll": []}
         res = None
+        pending_exc = None
         try:
-            if api == "marginal":
+            if invoke is not None:
+                if api == "iterative":
+                    ev["initb"] = initb if initb else (growth if growth is not None else 128) * nreq
+                res = invoke()
+            elif api == "marginal":
                 res = self.joker.marginal_ln_likelihood(self.data, arg, in_memory=inmem, **kw)
             elif api == "rejection":
                 res = self.joker.rejection_sample(
@@ -173,6 +218,8 @@ class Session:
         except Exception as ex:
             ret["raised"] = True
             ret["exc"] = "%s: %s" % (type(ex).__name__, str(ex)[:160])
+            if invoke is not None:
+                pending_exc = ex
         self.events.append(ev)
         # recorder events, with the ratio attached to parent uniform draws
         seen_ll = []
@@ -220,6 +267,8 @@ class Session:
                     with np.errstate(all="ignore"):
                         d["ratio"] = tokens.ord_tokens(np.exp(ll - ll.max()))
         self.events.append(ret)
+        if pending_exc is not None:
+            raise pending_exc
         return res
 
     def kernel_history(self, steps):
@@ -288,7 +337,11 @@ class Session:
             ret["scalars"] = bool(lpv.dtype.kind == "f" and llv.dtype.kind == "f" and lpv.ndim == 1 and llv.ndim == 1)
             if ret["scalars"]:
                 ret["lnlike"] = tokens.ord_tokens(llv)
-                ret["lnprior"] = [int(round(x)) if np.isfinite(x) and abs(x - round(x)) < 1e-9 else 0 for x in lpv]
+                byval = getattr(self.lib, "lnprior_by_value", None)
+                if byval is not None:
+                    ret["lnprior"] = [int(byval.get(float(x), 0)) for x in lpv]
+                else:
+                    ret["lnprior"] = [int(round(x)) if np.isfinite(x) and abs(x - round(x)) < 1e-9 else 0 for x in lpv]
 
     def trace(self, tid):
         return {"id": tid, "events": self.events}
